@@ -91,6 +91,22 @@ def main(argv=None) -> int:
             if st.get("failed"):
                 print(f"ANALYSIS-ERROR property={pid} selftest failed: {st['failed']}")
                 return 2
+            # the verdicts must not depend on layout or comments: same obligations on a re-printed source map
+            import ast as _ast
+
+            norm = {}
+            for p_, t_ in ctx.sources.items():
+                try:
+                    norm[p_] = _ast.unparse(_ast.parse(t_)) + "\n"
+                except SyntaxError:
+                    norm[p_] = t_
+            rep2 = run_property(pid, Ctx(sources=norm, tier=args.tier, repo=args.repo), args.tier)
+            ka = {(o.rule, o.construct, o.verdict) for o in rep.obligations}
+            kb = {(o.rule, o.construct, o.verdict) for o in rep2.obligations}
+            extra["reformat_invariance"] = {"equal": ka == kb, "obligations": len(ka), "only_original": sorted(map(str, ka - kb))[:10], "only_reprinted": sorted(map(str, kb - ka))[:10]}
+            if ka != kb:
+                print(f"ANALYSIS-ERROR property={pid} verdicts depend on source layout: {sorted(ka ^ kb)[:3]}")
+                return 2
         new, old = split_known(rep)
         level = meta["level"]
         if level == "proof" and any(o.verdict == UNDECIDED for o in rep.obligations):
